@@ -4,11 +4,10 @@ import cxx_specs as XS
 
 PROPERTY = "C06"
 LEVEL = "proof"
-EXPLANATION = ""
-TRUSTED = ["memory accesses performed BY the generated / hand-written machine code at run time (the masks and offsets it is given are checked, their execution is not)",
-           "blob sizes are measured from the assembled current jit_compiler_x86_static.S (nm), not proved"]
+EXPLANATION = ("Proof of buffer discipline at every site a contract can reach: every interpreter scratchpad access goes through an address masked into [0, 2 MiB - 8]; dataset offset + masked address stays below the dataset size and the light-mode item number below the item count; for every program the JIT's codePos stays inside the program area below the SuperscalarHash routine (loop contract over the instruction loop with the emitter's at-most-32-bytes contract, blob sizes measured from the assembled .S on every run); the emitters write only their 32-byte slot; the commitment API reads exactly inputSize + 32 bytes and writes 32.")
+TRUSTED = ['memory accesses performed BY the generated / hand-written machine code at run time (the masks and offsets it is given are checked, their execution is not)', 'blob sizes are measured from the assembled current jit_compiler_x86_static.S (nm), not proved', 'harness memcpy stub checks destinations only; the extraction verifies on every run that the generator never reads the code buffer back']
 ASSUMPTIONS = []
-NOT_DECIDED = []
+NOT_DECIDED = ['superscalar code generation (generateSuperscalarHash) layout', 'calculate_hash input/output extents other than the commitment API (covered only through the hash driver contract of C02)']
 INC = ["@suites/common"]
 
 
